@@ -6,5 +6,5 @@ cd "$(dirname "$0")"
 command -v verus >/dev/null
 command -v cargo-kani >/dev/null || command -v kani >/dev/null
 mkdir -p build evidence replays
-python3 -c "import sys; sys.path.insert(0,'.'); from vfw import extract; u=extract.Unit('contracts/verus/itime.vrs'); em=extract.build(u,'/repo'); assert len(em.functions)>40"
+python3 -c "import sys; sys.path.insert(0,'.'); from vfw import extract; u=extract.Unit('contracts/verus/itime.vrs'); em=extract.build(u,'/repo'); assert len(em.functions)>=30"
 echo setup-ok
